@@ -184,9 +184,9 @@ RECURSIVE CloseAll(_, _, _)
 CloseAll(w, i, fc) ==
   IF i > Len(w.sl) THEN w
   ELSE IF ~fc /\ w.sl[i].ssid = -1
-       \* DEVIATION of the code: close_stream_layer asserts conn.timestamp_start is not None, but the server side of
-       \* a client-initiated stream is only opened once its tcp_start hook has completed
-       THEN [w EXCEPT !.out = Append(@, [k |-> "raised", exc |-> "AssertionError"])]
+       \* "if conn.timestamp_start is None: continue": the server side of a client-initiated stream is only opened
+       \* once its tcp_start hook has completed; such a side is skipped (fix 9962d9340, finding C30-F1)
+       THEN CloseAll(w, i + 1, fc)
   ELSE LET w1 == SetSt(w, i, fc, Clr(StOf(w.sl[i], fc), 2))
            w2 == CloseStream([w1 EXCEPT !.out = <<>>], i, fc)
            keep == SelectSeq(w2.out, LAMBDA o : ~(o.k = "out" /\ o.kind = "end"))
